@@ -21,7 +21,7 @@ RULE = ("for each sampled (scenario with 2-4 simulators, latency schedule, trans
         "quick runs a seeded sample of the points of each execution, thorough all; one run per "
         "point; distinct+non-trivial = distinct (scenario, schedule, point) whose fault fired")
 LOCAL = ("stock", "gated")
-EXC_CLASSES = (None, None, "TypeError", "ValueError", "KeyError", "RuntimeError")
+EXC_CLASSES = (None, None, "TypeError", "ValueError", "KeyError", "RuntimeError", "StopIteration")
 REMOTE_KINDS = ("raise", "kill_in_handler", "kill_after_reply", "torn_reply", "reset_in_handler", "reset_after_reply")
 C14_PROFILES = ("zero", "uniform", "per_sim", "heavy", "slow_req", "ties", "slowlink", "slowlink")
 
